@@ -6,7 +6,7 @@ from .. import rx, cfg
 from ..core import AnalysisError, norm, walk_no_nested, Unfoldable
 
 META = {
-    'design_ref': 'DESIGN.md §3 C16',
+    'design_ref': 'DESIGN.md §5 C16',
     'technique': "abstract interpretation of globs_to_re on a basis of glob lists (all unit sequences up to length three over class representatives, pairs) with language equality between the produced pattern (under its flags and the consumer's match method) and the glob specification; loop-carried-state analysis of the character loop; interpretation of matches(), of the pattern cache over a history with failing translation, of find_files_paragraph for all truth assignments; frame rule (no memo in the lookup path)",
     'level_text': 'Static decision: the translation is character-wise (only an escaping backslash looks ahead), "*" denotes Σ*, "?" '
                   'denotes Σ (newline and "/" included), escapes denote their literal, other escapes raise the format error; with the way '
